@@ -78,8 +78,8 @@ func checkCase(c Case) (out evid.Outcome) {
 	for step, op := range c.Ops {
 		switch op.K {
 		case "autohead":
-			// switched on or off for good: registrations through Route are not
-			// affected, and neither is any request
+			// switched on or off for good: no request is affected, and while it is
+			// on the histories declare GET through Get / Any only
 			autoHead = op.On
 			f.AutoHead(op.On)
 			out.Classes = append(out.Classes, "autohead-switched")
@@ -373,16 +373,18 @@ func genCase(t *rapid.T) Case {
 	var regs []have
 	methods := []string{"GET", "GET", "GET", "POST", "*", "get", "get,post", "GET, PUT", "autohead-get", "autohead-get", "any"}
 	n := rapid.IntRange(3, 25).Draw(t, "nops")
+	ah := false // AutoHead as the history has left it
 	lit := func() model.Seg {
 		return model.Seg{Elems: []model.Elem{{Lit: staticLits[rapid.IntRange(0, len(staticLits)-1).Draw(t, "sl")]}}}
 	}
 	for i := 0; i < n; i++ {
 		k := rapid.IntRange(0, 9).Draw(t, "opk")
 		if rapid.IntRange(0, 14).Draw(t, "ah") == 0 {
-			c.Ops = append(c.Ops, Op{K: "autohead", On: rapid.IntRange(0, 2).Draw(t, "ahon") > 0})
+			ah = rapid.IntRange(0, 2).Draw(t, "ahon") > 0
+			c.Ops = append(c.Ops, Op{K: "autohead", On: ah})
 			continue
 		}
-		if len(regs) > 0 && rapid.IntRange(0, 11).Draw(t, "conflict") == 0 {
+		if len(regs) > 0 && i > n/2 && rapid.IntRange(0, 14).Draw(t, "conflict") == 0 {
 			// Any on a path that is taken for one method already: refused when it
 			// gets there, after some methods have been registered
 			h := regs[rapid.IntRange(0, len(regs)-1).Draw(t, "cf")]
@@ -426,6 +428,11 @@ func genCase(t *rapid.T) Case {
 				}
 			}
 			m := methods[rapid.IntRange(0, len(methods)-1).Draw(t, "rm")]
+			if ah && m != "POST" && m != "autohead-get" && m != "any" {
+				// while AutoHead is on, GET is only declared through Get (or Any):
+				// whether Route / Routes with GET add HEAD then is not stated
+				m = []string{"autohead-get", "POST"}[rapid.IntRange(0, 1).Draw(t, "ahm")]
+			}
 			if len(regs) > 0 && rapid.IntRange(0, 3).Draw(t, "shadow") == 0 {
 				// a dynamic route that shadows a registered one: same text with one
 				// segment replaced by a bind (it takes the requests the static route
@@ -439,6 +446,9 @@ func genCase(t *rapid.T) Case {
 				cp[j] = gen.SegOfKind(t, []model.Kind{model.KPlaceholder, model.KRegex, model.KMatchAll}[rapid.IntRange(0, 2).Draw(t, "sk")], used, false)
 				cp[j].Optional = opt
 				d, m = model.Route{Segs: cp}, h.m
+				if ah && m != "POST" && m != "autohead-get" && m != "any" {
+					m = "autohead-get"
+				}
 			}
 			ok := true
 			for _, mm := range expand(m) {
